@@ -1078,3 +1078,206 @@ Proof. repeat split. Qed.
 Example ex_fop_fill :
   fop_fill false Z Zops 0%Z ex_S (FCdag 1) [[1; 0]; [0; 1]]%Z [[1]]%Z 1 2 [1; 2] = Done ([[1]; [0]]%Z, [[-1; 0]; [0; 0]]%Z).
 Proof. vm_compute. reflexivity. Qed.
+
+(** * Part E: the entries of the dense product LeftMat * RightMat of the model, as explicit sums
+    (the bridge to the matrix statement Rotate.rotation_formula, completed in theories/RotateBridge.v) *)
+
+Section DenseEntries.
+Variable K : Type.
+Variable NO : numops K.
+Notation "0" := (n0 K NO).
+Notation kadd := (nadd K NO).
+Notation kmul := (nmul K NO).
+
+Lemma transpose_aux_length : forall nc (m : mat K), length (transpose_aux K NO nc m) = nc.
+Proof. induction nc as [|nc IH]; intro m; cbn [transpose_aux length]; [reflexivity | rewrite IH; reflexivity]. Qed.
+
+Lemma transpose_nth : forall nc (m : mat K) n, n < nc ->
+  nth n (transpose K NO nc m) [] = map (fun r => nth n r 0) m.
+Proof.
+  unfold transpose. induction nc as [|nc IH]; intros m n H; [lia|].
+  cbn [transpose_aux]. destruct n as [|n]; cbn [nth].
+  - apply map_ext. intros [|x r]; reflexivity.
+  - rewrite IH by lia. rewrite map_map. apply map_ext. intros [|x r]; [destruct n; reflexivity | reflexivity].
+Qed.
+
+Lemma dot_maps : forall {A} (l : list A) (f g : A -> K),
+  dot K NO (map f l) (map g l) = fold_left (fun acc x => kadd acc (kmul (f x) (g x))) l 0.
+Proof.
+  intros A l f g. unfold dot. generalize 0. induction l as [|x l IH]; intro a; [reflexivity|].
+  cbn [map combine fold_left fst snd]. apply IH.
+Qed.
+
+Lemma mmul_entry : forall ncb (a b : mat K) i j, i < length a -> j < ncb ->
+  mget K NO (mmul K NO ncb a b) i j = dot K NO (nth i a []) (map (fun r => nth j r 0) b).
+Proof.
+  intros ncb a b i j Hi Hj. unfold mget, mmul. cbv zeta.
+  assert (Hbt : length (transpose K NO ncb b) = ncb) by (apply transpose_aux_length).
+  rewrite <- (transpose_nth ncb b j Hj).
+  generalize dependent (transpose K NO ncb b). intros bt Hbt.
+  rewrite (nth_indep _ [] (map (fun c => dot K NO (nth 0 a []) c) bt)) by (rewrite map_length; exact Hi).
+  rewrite (map_nth (fun r => map (fun c => dot K NO r c) bt) a (nth 0 a []) i).
+  rewrite (nth_indep a (nth 0 a []) []) by exact Hi.
+  rewrite (nth_indep _ 0 (dot K NO (nth i a []) [])).
+  2: { rewrite map_length. unfold vec. rewrite Hbt. exact Hj. }
+  rewrite (map_nth (fun c => dot K NO (nth i a []) c) bt [] j). reflexivity.
+Qed.
+
+(** entry (n, m) of  (columns Lc)^T-as-rows  *  (rows Rr)  is  sum_k Lc[k][n] * Rr[k][m] *)
+Lemma columns_times_rows_entry : forall nt nf (Lc Rr : list (list K)) n m,
+  length Lc = nf -> length Rr = nf -> n < nt -> m < nf ->
+  mget K NO (mmul K NO nf (transpose K NO nt Lc) Rr) n m =
+  fold_left (fun acc k => kadd acc (kmul (nth n (nth k Lc []) 0) (nth m (nth k Rr []) 0))) (seq 0 nf) 0.
+Proof.
+  intros nt nf Lc Rr n m HL HR Hn Hm.
+  rewrite mmul_entry; [|unfold transpose; rewrite transpose_aux_length; exact Hn | exact Hm].
+  rewrite transpose_nth by exact Hn.
+  rewrite <- (map_nth_seq_id Lc []) at 1. rewrite <- (map_nth_seq_id Rr []) at 1.
+  rewrite HL, HR, !map_map. apply dot_maps.
+Qed.
+
+End DenseEntries.
+
+Lemma fold_left_add_ext_in : forall {K A} (add : K -> K -> K) (f g : A -> K) (l : list A) (a : K),
+  (forall x, In x l -> f x = g x) ->
+  fold_left (fun acc x => add acc (f x)) l a = fold_left (fun acc x => add acc (g x)) l a.
+Proof.
+  intros K A add f g l. induction l as [|x l IH]; intros a E; [reflexivity|].
+  cbn [fold_left]. rewrite (E x) by (left; reflexivity). apply IH. intros y Hy. apply E. right. exact Hy.
+Qed.
+
+Lemma find_pos_lt : forall (l : list nat) s n0 n, find_pos l s n0 = Some n -> n < n0 + length l.
+Proof.
+  induction l as [|x l IH]; intros s n0 n H; cbn [find_pos] in H; [discriminate|].
+  cbn [length]. destruct (Nat.eqb x s); [inversion H; lia|]. apply IH in H. lia.
+Qed.
+
+Section DenseRotation.
+Variable fb : bool.
+Variable K : Type.
+Variable NO : numops K.
+Variable eps : K.
+Notation "0" := (n0 K NO).
+Notation "1" := (n1 K NO).
+Notation kadd := (nadd K NO).
+Notation kmul := (nmul K NO).
+Notation kopp := (nopp K NO).
+Notation conj := (nconj K NO).
+Notation ltb := (nre_ltb K NO).
+Notation kabs := (nabs K NO).
+Hypothesis one_not_small : ltb (kabs 1) eps = false.
+Hypothesis mone_not_small : ltb (kabs (kopp 1)) eps = false.
+Hypothesis one_large : ltb eps (kabs 1) = true.
+Hypothesis mone_large : ltb eps (kabs (kopp 1)) = true.
+
+(** LeftMat(n,k) and RightMat(k,m) as functions of the positions, for the k-th state of the right block *)
+Definition lentry (M : nat) (o : fop) (fromStates toStates : list nat) (Hto : mat K) (k n : nat) : K :=
+  match tgt_of K NO M o (nth k fromStates 0%nat) with
+  | Some (L, sg) => match find_pos toStates L 0 with Some l => conj (mget K NO Hto l n) | None => 0 end
+  | None => 0
+  end.
+Definition rentry (M : nat) (o : fop) (fromStates : list nat) (Hfrom : mat K) (k m : nat) : K :=
+  match tgt_of K NO M o (nth k fromStates 0%nat) with
+  | Some (L, sg) => kmul sg (mget K NO Hfrom k m)
+  | None => 0
+  end.
+
+Theorem fop_dense_entries : forall (S : classification) (o : fop) (from to : nat) (fromStates toStates : list nat) (Hfrom Hto : mat K),
+  wf_class S -> mono_in_range (sc_M S) (fop_mono o) ->
+  nth_error (sc_states S) from = Some fromStates -> nth_error (sc_states S) to = Some toStates ->
+  square K (length fromStates) Hfrom -> square K (length toStates) Hto ->
+  (forall Kst L sg, In Kst fromStates -> tgt_of K NO (sc_M S) o Kst = Some (L, sg) -> In L toStates) ->
+  exists D, fop_dense fb K NO eps S o from to Hfrom Hto = Done D /\
+    forall n m, n < length toStates -> m < length fromStates ->
+      mget K NO D n m =
+      fold_left (fun acc k => kadd acc (kmul (lentry (sc_M S) o fromStates toStates Hto k n) (rentry (sc_M S) o fromStates Hfrom k m)))
+                (seq 0 (length fromStates)) 0.
+Proof.
+  intros S o from to fromStates toStates Hfrom Hto Hwf Hr Hf Ht HsqF HsqT Hresp.
+  destruct (fop_fill_char fb K NO eps one_not_small mone_not_small one_large mone_large
+              S o from to fromStates toStates Hfrom Hto Hwf Hr Hf Ht HsqF HsqT Hresp) as [Lc [Rr [Hfill [HL [HR Hchar]]]]].
+  unfold fop_dense, getFockStates. rewrite Ht, Hf. cbn [bind]. rewrite Hfill. cbn [bind fst snd].
+  eexists. split; [reflexivity|].
+  intros n m Hn Hm. rewrite (columns_times_rows_entry K NO (length toStates) (length fromStates) Lc Rr n m HL HR Hn Hm).
+  assert (E : forall k, In k (seq 0 (length fromStates)) ->
+            kmul (nth n (nth k Lc []) 0) (nth m (nth k Rr []) 0) =
+            kmul (lentry (sc_M S) o fromStates toStates Hto k n) (rentry (sc_M S) o fromStates Hfrom k m)).
+  { intros k Hk. apply in_seq in Hk.
+    assert (Hkn : nth_error fromStates k = Some (nth k fromStates 0%nat)) by (apply nth_error_nth'; lia).
+    specialize (Hchar k _ Hkn). unfold lentry, rentry.
+    destruct (tgt_of K NO (sc_M S) o (nth k fromStates 0%nat)) as [[L sg]|].
+    - destruct Hchar as [l [Hl [HcL HcR]]].
+      rewrite (find_pos_nth toStates l L 0 (proj1 Hwf to toStates Ht) Hl). cbn [Nat.add].
+      rewrite HcL, HcR. unfold left_column, right_row.
+      rewrite (nth_map_seq _ (length toStates) n 0) by exact Hn.
+      rewrite (nth_map_seq _ (length fromStates) m 0) by exact Hm. reflexivity.
+    - destruct Hchar as [HcL HcR]. rewrite HcL, HcR, !nth_repeat. reflexivity. }
+  apply fold_left_add_ext_in. exact E.
+Qed.
+
+End DenseRotation.
+
+(** the Jordan-Wigner matrix of a field operator in terms of [tgt_of]: column r has its only non-zero entry, the sign,
+    in the row of the image state *)
+Lemma jw_entry_tgt : forall (K : Type) (NO : numops K) M (o : fop) t r, t < Nat.pow 2 M -> r < Nat.pow 2 M ->
+  mget K NO (poly_matrix K NO M (fop_poly K NO o)) t r =
+  nadd K NO (n0 K NO) (match tgt_of K NO M o r with
+                       | Some (L, sg) => if Nat.eqb L t then sg else n0 K NO
+                       | None => n0 K NO
+                       end).
+Proof.
+  intros K NO M o t r Ht Hr. unfold mget, poly_matrix.
+  rewrite (nth_map_seq _ (Nat.pow 2 M) t []) by exact Ht. rewrite (nth_map_seq _ (Nat.pow 2 M) r (n0 K NO)) by exact Hr.
+  rewrite fop_poly_mono. unfold ksum. cbn [fold_left fst snd]. f_equal.
+  unfold mono_entry, tgt_of.
+  destruct (act_mono (fop_mono o) (state_of_nat M r)) as [[[sg s']|]| | | |]; reflexivity.
+Qed.
+
+Lemma find_pos_in : forall (l : list nat) s n0, In s l -> exists n, find_pos l s n0 = Some n.
+Proof.
+  induction l as [|x l IH]; intros s n0 H; [destruct H|].
+  cbn [find_pos]. destruct (Nat.eqb x s) eqn:E; [eauto|].
+  destruct H as [H|H]; [subst x; rewrite Nat.eqb_refl in E; discriminate | apply IH; exact H].
+Qed.
+
+Lemma find_pos_sound : forall (l : list nat) s n0 n, find_pos l s n0 = Some n -> nth_error l (n - n0) = Some s.
+Proof.
+  induction l as [|x l IH]; intros s n0 n H; cbn [find_pos] in H; [discriminate|].
+  destruct (Nat.eqb x s) eqn:E.
+  - inversion H; subst. apply Nat.eqb_eq in E. subst. rewrite Nat.sub_diag. reflexivity.
+  - pose proof (IH s (S n0) n H) as H1.
+    assert (Hlt : n0 < n).
+    { clear -H. revert n0 n H. induction l as [|y l IHl]; intros n0 n H; cbn [find_pos] in H; [discriminate|].
+      destruct (Nat.eqb y s); [inversion H; lia | apply IHl in H; lia]. }
+    replace (n - n0) with (S (n - S n0)) by lia. exact H1.
+Qed.
+
+Lemma restrict_entry : forall (K : Type) (NO : numops K) (m : mat K) (rows cols : list nat) i j,
+  i < length rows -> j < length cols ->
+  mget K NO (restrict K NO m rows cols) i j = mget K NO m (nth i rows 0) (nth j cols 0).
+Proof.
+  intros K NO m rows cols i j Hi Hj. unfold restrict, mget at 1.
+  rewrite (nth_indep _ [] (map (fun s => mget K NO m (nth 0 rows 0) s) cols)) by (rewrite map_length; exact Hi).
+  rewrite (map_nth (fun t => map (fun s => mget K NO m t s) cols) rows (nth 0 rows 0) i).
+  rewrite (nth_indep rows (nth 0 rows 0) 0) by exact Hi.
+  rewrite (nth_indep _ (n0 K NO) (mget K NO m (nth i rows 0) (nth 0 cols 0))) by (rewrite map_length; exact Hj).
+  rewrite (map_nth (fun s => mget K NO m (nth i rows 0) s) cols (nth 0 cols 0) j).
+  rewrite (nth_indep cols (nth 0 cols 0) 0) by exact Hj. reflexivity.
+Qed.
+
+(** the hypotheses of [fop_fill_char] are satisfiable: c^+_1 from the N = 1 block [1;2] to the N = 2 block [3] of [ex_S] *)
+Example ex_fop_fill_by_theorem :
+  exists Lc Rr,
+    fop_fill false Z Zops 0%Z ex_S (FCdag 1) [[1; 0]; [0; 1]]%Z [[1]]%Z 1 2 [1; 2] = Done (Lc, Rr) /\ length Lc = 2 /\ length Rr = 2.
+Proof.
+  destruct (fop_fill_char false Z Zops 0%Z (proj1 Z_one_tests) (proj1 (proj2 Z_one_tests))
+              (proj1 (proj2 (proj2 Z_one_tests))) (proj2 (proj2 (proj2 Z_one_tests)))
+              ex_S (FCdag 1) 1 2 [1; 2] [3] [[1; 0]; [0; 1]]%Z [[1]]%Z ex_wf) as [Lc [Rr [H [HL [HR _]]]]].
+  - repeat constructor.
+  - reflexivity.
+  - reflexivity.
+  - split; [reflexivity|]. intros i Hi. destruct i as [|[|i]]; [reflexivity | reflexivity | cbn in Hi; lia].
+  - split; [reflexivity|]. intros i Hi. destruct i as [|i]; [reflexivity | cbn in Hi; lia].
+  - intros Kst L sg HK. cbn in HK. destruct HK as [<-|[<-|[]]]; vm_compute; intro HH; inversion HH; auto.
+  - exists Lc, Rr. auto.
+Qed.
